@@ -33,6 +33,7 @@ import (
 	"golang.org/x/oauth2"
 	"google.golang.org/genproto/googleapis/rpc/status"
 	"google.golang.org/grpc/codes"
+	"google.golang.org/protobuf/proto"
 
 	oidcv1 "github.com/istio-ecosystem/authservice/config/gen/go/v1/oidc"
 	"github.com/istio-ecosystem/authservice/internal"
@@ -76,8 +77,14 @@ func NewOIDCHandler(cfg *oidcv1.OIDCConfig, tlsPool internal.TLSConfigPool, jwks
 		return nil, err
 	}
 
-	if err := loadWellKnownConfig(client, cfg); err != nil {
-		return nil, err
+	if cfg.GetConfigurationUri() != "" {
+		// The configuration is shared by all the concurrent checks. The endpoints discovered from the
+		// well-known configuration are resolved into a copy owned by this handler instead of being
+		// written to the shared object on every request.
+		cfg = proto.Clone(cfg).(*oidcv1.OIDCConfig)
+		if err := loadWellKnownConfig(client, cfg); err != nil {
+			return nil, err
+		}
 	}
 
 	return &oidcHandler{
